@@ -94,6 +94,41 @@ def main():
         terms.append(f"run {coqeval.zlist(shots_list)}")
         expect_real.append(real)
         infos.append(info)
+    # wide registers: Z-type operators on qubit indices up to 130 measured on a computational basis state; the
+    # ideal counts are {bits: shots}, so the estimate is sum coef * (-1)^popcount(bits & support)
+    for _ in range(40 if a.tier == "quick" else 400):
+        n = rng.choice([66, 70, 100, 130])
+        bits = rng.getrandbits(n)
+        op = Operator()
+        exp = 0.0
+        for _t in range(rng.randint(1, 4)):
+            idx = sorted(rng.sample(range(n), rng.randint(1, 3)))
+            if rng.random() < 0.7:
+                idx[-1] = rng.randrange(64, n)
+                idx = sorted(set(idx))
+            c = rng.choice([1.0, -0.5, 2.0])
+            lab = pauli_label(" ".join(f"Z{i}" for i in idx))
+            if lab in op:
+                continue
+            op[lab] = c
+            sign = 1
+            for i in idx:
+                if (bits >> i) & 1:
+                    sign = -sign
+            exp += c * sign
+
+        def alloc_all(operator, pauli_sets, total):
+            return [PauliSamplingSetting(pauli_set=ps, n_shots=total) for ps in pauli_sets]
+
+        def basis_sampler(pairs, _b=bits):
+            return [{_b: s} for c, s in pairs]
+
+        val = sampling_estimate(op, ComputationalBasisState(n, bits=bits), 100, basis_sampler,
+                                bitwise_commuting_pauli_measurement, alloc_all).value
+        res.count(("wide", n, bits, str(op)), bucket="wide_register")
+        if abs(val - exp) > 1e-9:
+            res.fail("corr:sampling_estimate:wide_register_value", f"estimate {val} != exact {exp} on a {n}-qubit register",
+                     {"n": n, "bits": bits, "operator": str(op)})
     try:
         model = coqeval.eval_cases(a.work, "c08", IMPORTS, DEFS, terms)
         for info, r, m in zip(infos, expect_real, model):
